@@ -1,5 +1,6 @@
 //! The resolver (semantic analyzer) for `NaijaScript`.
 
+use std::cell::Cell;
 use std::collections::HashSet;
 
 use crate::analysis::effects::{self, ExprClass};
@@ -16,7 +17,7 @@ use crate::builtins::{
     ProcessResultBuiltin, StringBuiltin,
 };
 use crate::diagnostics::{AsStr, Diagnostics, Label, Severity, Span};
-use crate::helpers::ValueType;
+use crate::helpers::{STACK_BUDGET, StackGuard, ValueType};
 use crate::syntax::parser::{
     BinaryOp, BlockRef, Expr, ExprRef, ParamListRef, Stmt, StmtRef, StringParts, StringSegment,
     UnaryOp,
@@ -35,6 +36,7 @@ pub enum SemanticError {
     UnusedVariable,
     UnusedFunction,
     ReservedKeyword,
+    NestingTooDeep,
 }
 
 impl AsStr for SemanticError {
@@ -50,6 +52,7 @@ impl AsStr for SemanticError {
             SemanticError::UnusedVariable => "Unused variable",
             SemanticError::UnusedFunction => "Unused function",
             SemanticError::ReservedKeyword => "Use of reserved keyword",
+            SemanticError::NestingTooDeep => "Program nest too deep",
         }
     }
 }
@@ -120,6 +123,15 @@ pub struct Resolver<'ast, 'res> {
     /// Conservative optimization plan built from the current analysis facts.
     pub optimization_plan: Option<OptimizationPlan<'ast>>,
 
+    // Native stack probe for the recursive walks, anchored in `resolve`.
+    stack: StackGuard,
+
+    // Where a walk first ran out of stack budget; once set, no walk descends any further.
+    too_deep_at: Cell<Option<Span>>,
+
+    // Deepest native stack use of the block walk (the analyses repeat that walk).
+    deepest_block: usize,
+
     // Reference to the arena for allocating scope vectors
     arena: &'res Arena,
 
@@ -141,6 +153,9 @@ impl<'ast, 'res> Resolver<'ast, 'res> {
             errors: Diagnostics::new(arena),
             facts: ProgramFacts::new(facts_arena),
             optimization_plan: None,
+            stack: StackGuard::new(),
+            too_deep_at: Cell::new(None),
+            deepest_block: 0,
             arena,
             facts_arena,
         }
@@ -162,13 +177,33 @@ impl<'ast, 'res> Resolver<'ast, 'res> {
         let root_function = self.facts.push_root_function(root);
         self.current_owner = root_function;
         self.current_function = None;
+        self.stack = StackGuard::new();
         self.check_block(root);
         self.facts.finalize_pointer_bindings();
+        if let Some(span) = self.too_deep_at.get() {
+            // The program was only partly resolved: report that and nothing derived from it.
+            let message = ArenaCow::Borrowed("Dis code nest pass wetin I fit check");
+            self.emit_error(span, SemanticError::NestingTooDeep, vec![Label { span, message }]);
+            return;
+        }
         self.emit_analysis_warnings();
     }
 
+    /// Probes the native stack on entry to a recursive walk. The first probe that finds the
+    /// budget exceeded records where; from then on every walk returns without descending.
+    #[inline]
+    fn too_deep(&self, span: Span) -> bool {
+        if self.too_deep_at.get().is_none() && self.stack.exceeded() {
+            self.too_deep_at.set(Some(span));
+        }
+        self.too_deep_at.get().is_some()
+    }
+
     fn emit_error(&mut self, span: Span, error: SemanticError, labels: Vec<Label<'res>>) {
-        self.errors.emit(span, Severity::Error, "semantic", error.as_str(), labels);
+        // Everything found after the nesting error is fallout of abandoning the walk.
+        if self.too_deep_at.get().is_none() || matches!(error, SemanticError::NestingTooDeep) {
+            self.errors.emit(span, Severity::Error, "semantic", error.as_str(), labels);
+        }
     }
 
     fn emit_warning(&mut self, span: Span, warning: SemanticError, labels: Vec<Label<'res>>) {
@@ -177,6 +212,10 @@ impl<'ast, 'res> Resolver<'ast, 'res> {
 
     #[inline]
     fn check_block(&mut self, block: BlockRef<'ast>) {
+        if self.too_deep(block.span) {
+            return;
+        }
+        self.deepest_block = self.deepest_block.max(self.stack.used());
         let scope_id =
             self.facts.push_scope(self.scope_stack.last().copied(), self.current_owner, block.span);
         self.facts.record_block_scope(block, scope_id);
@@ -743,6 +782,9 @@ impl<'ast, 'res> Resolver<'ast, 'res> {
 
     #[inline]
     fn check_expr(&mut self, expr: ExprRef<'ast>) {
+        if self.too_deep(expr.span()) {
+            return;
+        }
         match expr {
             // Literals are always valid since they represent concrete values
             Expr::Number(..) | Expr::Bool(..) | Expr::Null(..) => {}
@@ -1181,13 +1223,16 @@ impl<'ast, 'res> Resolver<'ast, 'res> {
     /// the expression itself rules the failure out.
     fn condition_class(&self, cond: ExprRef<'ast>) -> ExprClass {
         let class = self.classify_expr(cond);
-        match Self::literal_expr_type(cond) {
+        match self.literal_expr_type(cond) {
             Some(ValueType::Bool | ValueType::Null) => class,
             _ => class.join(ExprClass::PureMayTrap),
         }
     }
 
     fn classify_expr(&self, expr: ExprRef<'ast>) -> ExprClass {
+        if self.too_deep(expr.span()) {
+            return ExprClass::Impure;
+        }
         match expr {
             Expr::Number(..) | Expr::Bool(..) | Expr::Null(..) => ExprClass::PureNoTrap,
             Expr::Var(name, ..) => self.variable_read_class(name),
@@ -1215,7 +1260,7 @@ impl<'ast, 'res> Resolver<'ast, 'res> {
                 // type), so an operator can only be trusted not to stop the run when both
                 // operand types follow from the literals in the expression itself.
                 if matches!(op, BinaryOp::Divide | BinaryOp::Mod)
-                    || Self::literal_expr_type(expr).is_none()
+                    || self.literal_expr_type(expr).is_none()
                 {
                     class.join(ExprClass::PureMayTrap)
                 } else {
@@ -1224,7 +1269,7 @@ impl<'ast, 'res> Resolver<'ast, 'res> {
             }
             Expr::Unary { expr: operand, .. } => {
                 let class = self.classify_expr(operand);
-                if Self::literal_expr_type(expr).is_none() {
+                if self.literal_expr_type(expr).is_none() {
                     class.join(ExprClass::PureMayTrap)
                 } else {
                     class
@@ -1245,7 +1290,7 @@ impl<'ast, 'res> Resolver<'ast, 'res> {
                             class = class.join(effects::global_builtin_class(builtin));
                             // `command` needs a string; only a literal argument guarantees one.
                             if matches!(builtin, GlobalBuiltin::Command)
-                                && args.args.first().copied().and_then(Self::literal_expr_type)
+                                && args.args.first().and_then(|arg| self.literal_expr_type(arg))
                                     != Some(ValueType::String)
                             {
                                 class = class.join(ExprClass::PureMayTrap);
@@ -1288,20 +1333,23 @@ impl<'ast, 'res> Resolver<'ast, 'res> {
     /// Type of an expression built from literals and operators only, when the runtime has a
     /// case for every operator in it; `None` for anything whose type depends on a variable,
     /// a call, an index or a member access.
-    fn literal_expr_type(expr: ExprRef<'ast>) -> Option<ValueType> {
+    fn literal_expr_type(&self, expr: ExprRef<'ast>) -> Option<ValueType> {
+        if self.too_deep(expr.span()) {
+            return None;
+        }
         match expr {
             Expr::Number(..) => Some(ValueType::Number),
             Expr::String { .. } => Some(ValueType::String),
             Expr::Bool(..) => Some(ValueType::Bool),
             Expr::Null(..) => Some(ValueType::Null),
-            Expr::Unary { op, expr, .. } => match (op, Self::literal_expr_type(expr)?) {
+            Expr::Unary { op, expr, .. } => match (op, self.literal_expr_type(expr)?) {
                 (UnaryOp::Not, ValueType::Bool | ValueType::Null) => Some(ValueType::Bool),
                 (UnaryOp::Minus, ValueType::Number) => Some(ValueType::Number),
                 _ => None,
             },
             Expr::Binary { op, lhs, rhs, .. } => {
-                let l = Self::literal_expr_type(lhs)?;
-                let r = Self::literal_expr_type(rhs)?;
+                let l = self.literal_expr_type(lhs)?;
+                let r = self.literal_expr_type(rhs)?;
                 match (op, l, r) {
                     (
                         BinaryOp::Add
@@ -1353,6 +1401,9 @@ impl<'ast, 'res> Resolver<'ast, 'res> {
 
     #[inline]
     fn infer_expr_type(&self, expr: ExprRef<'ast>) -> Option<ValueType> {
+        if self.too_deep(expr.span()) {
+            return None;
+        }
         match expr {
             Expr::Number(..) => Some(ValueType::Number),
             Expr::Null(..) => Some(ValueType::Null),
@@ -1485,6 +1536,9 @@ impl<'ast, 'res> Resolver<'ast, 'res> {
         block: BlockRef<'ast>,
         return_types: &mut Vec<ValueType, &'res Arena>,
     ) {
+        if self.too_deep(block.span) {
+            return;
+        }
         for stmt in block.stmts {
             self.collect_return_types_from_stmt(stmt, return_types);
         }
@@ -1526,10 +1580,17 @@ impl<'ast, 'res> Resolver<'ast, 'res> {
     }
 
     fn emit_analysis_warnings(&mut self) {
-        let counts = cfg::count_program(&self.facts, self.arena);
-        if let Some(limit) =
-            limits::first_exceeded_limit(&self.facts, &counts, limits::DEFAULT_CAPS)
-        {
+        // The analyses walk nested blocks recursively like `check_block` does, with frames of
+        // their own: they only run when that walk stayed well inside the stack budget.
+        let nesting = (self.deepest_block > STACK_BUDGET / 4).then_some(limits::AnalysisLimit {
+            metric: "block nesting stack bytes",
+            observed: self.deepest_block as u64,
+            limit: (STACK_BUDGET / 4) as u64,
+        });
+        let counts = nesting.is_none().then(|| cfg::count_program(&self.facts, self.arena));
+        if let Some(limit) = nesting.or_else(|| {
+            limits::first_exceeded_limit(&self.facts, counts.as_ref()?, limits::DEFAULT_CAPS)
+        }) {
             let span = self.facts.function(self.facts.root_function).body_span;
             let message = arena_format!(
                 self.arena,
@@ -1550,6 +1611,7 @@ impl<'ast, 'res> Resolver<'ast, 'res> {
             return;
         }
 
+        let counts = counts.expect("CFG counts exist when no limit was exceeded");
         let program = cfg::build_program_with_counts(&self.facts, &counts, self.arena);
         let reachable = reachability::reachable_statement_mask(&program, self.arena);
         let unreachable = reachability::unreachable_statements(&program, self.arena);
